@@ -94,4 +94,7 @@ def main(tier='quick', seed=0):
     extra = dict(functions_under_contract=['depccg/parsing.h::parse_sentence (push sites: rule index and head propagation)', 'depccg/grammar/__init__.py::guess_combinator_by_triplet',
                                            'call sites: tools/reader.py (_AutoLineReader.parse_tree, read_xml, read_jigg_xml, _parse_ptb), tree.py (Tree.of_nltk_tree)'],
                  cxx=info)
-    return finish_with(PROP, tier, seed, t0, records, errors, extra, assumptions, ['search_real.py', 'pyx_real.py'])
+    from props import c14
+    # the guess depends on its arguments alone: no module-level state in depccg/grammar/__init__.py (ast frame scan)
+    records.extend(c14.purity_scan(PROP, rels=('depccg/grammar/__init__.py',), imports=False))
+    return finish_with(PROP, tier, seed, t0, records, errors, extra, assumptions, ['search_real.py', 'pyx_real.py', 'guess_real.py'])
